@@ -133,6 +133,19 @@ def _first_per_key(viol):
     return out
 
 
+def _brief(A, E=None):
+    """Matrices of more than 8 nodes are recorded by their shape and the
+    first differing positions only."""
+    A = np.asarray(A)
+    if A.ndim != 2 or A.shape[0] <= 8:
+        return A
+    out = {"shape": list(A.shape), "nonzero": int(np.count_nonzero(A))}
+    if E is not None and np.asarray(E).shape == A.shape:
+        d = np.argwhere(A != np.asarray(E))
+        out["differs_at(first 10 of %d)" % len(d)] = d[:10].tolist()
+    return out
+
+
 def _bits(A):
     return int("".join(str(int(x)) for x in np.asarray(A).ravel()) or "0", 2)
 
@@ -145,10 +158,9 @@ def _check(net, mdl, op, viol, excl, stats, cname="ClimateNetwork",
     kind, arg = op
     sub_name, cname = cname, "ClimateNetwork"   # thresholding, counting and
     # the setters are base class code: one key whatever subclass shows it
-    S = mdl.S
     n = mdl.n
     P = n * (n - 1)
-    dcls = "diag-max" if M.diagonal_is_maximal(S) else "diag-not-max"
+    dcls = "diag-max" if mdl.diag_max() else "diag-not-max"
     try:
         tau_r = net.threshold()
         nl_r = net.non_local()
@@ -173,11 +185,11 @@ def _check(net, mdl, op, viol, excl, stats, cname="ClimateNetwork",
         return A
     if kind == "dens":
         acc = mdl.accepted
-        offs = M.offdiag_sorted(S)
+        offs = mdl.offs()
         tau_ok = any((a is not None and tau_f == a) or
                      (a is None and tau_f >= offs[-1]) for a in acc)
         if not tau_ok:
-            allv = M.all_sorted(S)
+            allv = mdl.allv()
             form = ""
             if any(tau_f == allv[k] for k in M.quantile_index(arg, P)):
                 form = "=order-statistic-incl-diagonal"
@@ -217,7 +229,8 @@ def _check(net, mdl, op, viol, excl, stats, cname="ClimateNetwork",
         viol.append(V("%s.adjacency:shape" % cname, "", A.shape, E.shape))
         return A
     if np.any(np.diag(A) != 0):
-        viol.append(V("%s.adjacency:self-loop:%s" % (cname, loc), "", A, E))
+        viol.append(V("%s.adjacency:self-loop:%s" % (cname, loc), "",
+                      _brief(A, E), _brief(E)))
     if support_only:
         k = "Hilbert directed: direction of a link chosen by the phase " \
             "(class documentation); only the undirected support is judged"
@@ -236,9 +249,7 @@ def _check(net, mdl, op, viol, excl, stats, cname="ClimateNetwork",
         bad = (A != E) & ~U
     rel_ok = not np.any(bad)
     if not rel_ok:
-        Vw, _ = mdl._w[mdl.non_local]
-        Ege = (np.array(Vw) >= tau_f).astype(int)
-        np.fill_diagonal(Ege, 0)
+        Ege = np.array(mdl.at_or_above(tau_f))
         if support_only:
             key = "%s.adjacency:support:%s" % (sub_name, loc)
         elif np.array_equal(A, Ege):
@@ -248,11 +259,11 @@ def _check(net, mdl, op, viol, excl, stats, cname="ClimateNetwork",
         viol.append(V(key,
                       "adjacency is not (|S|*w > threshold) off the diagonal "
                       "(threshold %r as reported, after %s %r)" % (
-                          tau_f, kind, arg), A, E))
-    elif M.is_symmetric(S) and not nu and not support_only:
+                          tau_f, kind, arg), _brief(A, E), _brief(E, A)))
+    elif mdl.symmetric() and not nu and not support_only:
         if not np.array_equal(A, A.T):
             viol.append(V("%s.adjacency:asymmetric-on-symmetric-similarity"
-                          % cname, "", A, E))
+                          % cname, "", _brief(A, A.T), _brief(E)))
     # ---- link count and density against the adjacency reported
     symA = np.array_equal(A, A.T)
     if mdl.directed:
@@ -273,7 +284,7 @@ def _check(net, mdl, op, viol, excl, stats, cname="ClimateNetwork",
             cname, dtag), "after %s %r" % (kind, arg), dens, nnz / P))
     # ---- density bounds
     if kind == "dens" and tau_ok and rel_ok:
-        lo, hi = M.density_bounds(S, arg, tau_f)
+        lo, hi = mdl.bounds(arg, tau_f)
         if nnz > hi:
             viol.append(V("ClimateNetwork.set_link_density:density>request:"
                           + dcls, "requested %r" % arg,
@@ -322,7 +333,8 @@ def _twin(net, grid, S, directed, op, viol, cname="ClimateNetwork"):
         viol.append(V("%s:!=fresh-twin:after:%s" % (cname, op[0]),
                       "state after the history differs from a network "
                       "constructed with threshold()/non_local() as reported",
-                      a, b))
+                      (_brief(a[0], b[0]), a[1], a[2]),
+                      (_brief(b[0], a[0]), b[1], b[2])))
 
 
 def _stale_degree(net, A, stats):
@@ -715,7 +727,154 @@ def fam_sub(case):
             "transitions": ntr, "traces": 1}
 
 
-FAMILIES = {"step": fam_step, "hist": fam_hist, "sub": fam_sub}
+# ---- scale: a few hundred nodes ------------------------------------------
+
+SCALE_LEVELS = 41
+
+
+def scale_matrix(N, sym, diag):
+    """Deterministic similarity matrix with 41 levels k/40 (so ~N^2/41 ties
+    per level), alternating signs; the three largest entries are put on the
+    highest-numbered nodes (flat index beyond 2^15 for N >= 182)."""
+    i = np.arange(N)[:, None]
+    j = np.arange(N)[None, :]
+    if sym:
+        a, b = np.minimum(i, j), np.maximum(i, j)
+    else:
+        a, b = i, j
+    S = ((a * 7 + b * 13 + a * b) % SCALE_LEVELS) / 40.0
+    S = S * np.where((a + 2 * b) % 3 == 0, -1.0, 1.0)
+    S[N - 1, N - 2] = 1.5
+    S[N - 2, N - 1] = 1.5 if sym else -1.25
+    S[N - 1, 0] = -1.375
+    S[0, N - 1] = -1.375 if sym else 0.0
+    np.fill_diagonal(S, diag)
+    return S
+
+
+def scale_grid(N, T=2):
+    """N points: a spiral over the sphere, every 9th point within the 0.05
+    rad local radius of its predecessor, two exact antipodes, one duplicate
+    location."""
+    from pyunicorn.core import GeoGrid
+    k = np.arange(N)
+    lat = -80.0 + 160.0 * ((k * 37) % N) / N
+    lon = (k * 137.5) % 360.0 - 180.0
+    near = (k % 9 == 8)
+    lat[near] = lat[k[near] - 1] + 0.75
+    lon[near] = lon[k[near] - 1] + 0.5
+    lat[0], lon[0], lat[1], lon[1] = 10.0, 20.0, -10.0, -160.0
+    lat[N - 1], lon[N - 1] = lat[N - 3], lon[N - 3]
+    return lat, lon, GeoGrid(np.arange(float(T)), lat, lon, silence_level=3)
+
+
+def _great_circle_np(lat, lon):
+    la, lo = np.radians(lat), np.radians(lon)
+    P = np.stack([np.cos(la) * np.cos(lo), np.cos(la) * np.sin(lo),
+                  np.sin(la)], axis=1)
+    dot = P @ P.T
+    cr = np.linalg.norm(np.cross(P[:, None, :], P[None, :, :]), axis=2)
+    return np.arctan2(cr, dot)
+
+
+def fam_scale(case):
+    N, sym, diag, directed, nl = case
+    viol, excl, stats = [], {}, {}
+    S = scale_matrix(N, sym, diag)
+    Sabs = np.abs(S.astype(np.float32)).astype(float)
+    lat, lon, grid = scale_grid(N)
+    D = np.asarray(grid.angular_distance(), dtype=float)
+    if not np.all(np.abs(D - _great_circle_np(lat, lon)) <= 2.0 ** -10):
+        excl["angular distances off by more than 2^-10 (C12): scale case not "
+             "judged"] = 1
+        return {"viol": viol, "excluded": excl, "trivial": True, "evals": 0}
+    lv = np.unique(Sabs)
+    mid = M.f32((lv[len(lv) // 2] + lv[len(lv) // 2 + 1]) / 2)
+    thresholds = [float(lv[len(lv) // 2]), mid, float(lv[-3]), float(lv[1]),
+                  -1.0, 2.0]
+    densities = [0.0, 0.003, 1 / 3, 0.5, 0.77, 1.0]
+    ev = ntr = 0
+    sig = []
+
+    def model(tau):
+        m = M.NpModel(Sabs, D, directed, tau, nl)
+        m.accepted = None
+        return m
+    prev = None
+    for t in sorted(thresholds):
+        try:
+            net = _mk(grid, S, directed, nl, threshold=t)
+        except Exception as ex:   # noqa
+            viol.append(V("ClimateNetwork.__init__:raises:threshold-mode",
+                          "N=%d" % N, repr(ex), "a network"))
+            continue
+        A = _check(net, model(t), ("ctor-thr", t), viol, excl, stats)
+        ev += 1
+        if A is None:
+            continue
+        sig.append((t, int(A.sum()), int(A[-1].sum())))
+        if prev is not None and np.any(A > prev):
+            viol.append(V("ClimateNetwork.adjacency:not-monotone-in-threshold",
+                          "raising the threshold to %r added a link" % t,
+                          _brief(A, prev), _brief(prev)))
+        prev = A
+    for r in densities:
+        mdl = model(None)
+        mdl.apply(["dens", r])
+        try:
+            net = _mk(grid, S, directed, nl, link_density=r)
+        except Exception as ex:   # noqa
+            viol.append(V("ClimateNetwork.__init__:raises:link_density-mode",
+                          "N=%d" % N, repr(ex), "a network"))
+            continue
+        A = _check(net, mdl, ("dens", r), viol, excl, stats)
+        ev += 1
+        if A is not None:
+            sig.append((r, int(A.sum()), float(net.threshold())))
+    # a setter history on the last object (>= 4 calls of each kind of setter
+    # path on the same instance)
+    chain = [["thr", mid], ["dens", 0.5], ["nl", not nl], ["dens", 0.003],
+             ["thr", float(lv[-3])], ["dens", 0.77], ["nl", nl],
+             ["thr", float(lv[1])], ["dens", 1 / 3], ["thr", 2.0]]
+    names = {"thr": "set_threshold", "dens": "set_link_density",
+             "nl": "set_non_local"}
+    try:
+        net = _mk(grid, S, directed, nl, threshold=TAU0)
+        mdl = model(TAU0)
+    except Exception as ex:   # noqa
+        viol.append(V("ClimateNetwork.__init__:raises:threshold-mode",
+                      "N=%d" % N, repr(ex), "a network"))
+        chain = []
+    for op in chain:
+        mdl.apply(op)
+        try:
+            _apply(net, op)
+        except Exception as ex:   # noqa
+            viol.append(V("ClimateNetwork.%s:raises" % names[op[0]],
+                          "N=%d history step %r" % (N, op), repr(ex),
+                          "no exception"))
+            break
+        ntr += 1
+        A = _check(net, mdl, op, viol, excl, stats)
+        ev += 1
+        if A is None:
+            break
+        sig.append((op[0], int(A.sum())))
+    else:
+        if chain:
+            if not viol:
+                _twin(net, grid, S, directed, chain[-1], viol)
+            _stale_degree(net, np.array(net.adjacency), stats)
+    for v in viol:
+        v["msg"] = "N=%d :: %s" % (N, v["msg"])
+        v["key"] += ":scale"      # input class: networks of > 128 nodes
+    return {"viol": _first_per_key(viol), "evals": ev, "excluded": excl,
+            "stats": stats, "trivial": len(set(sig)) < 3, "sig": str(sig),
+            "transitions": ntr, "traces": 1 if chain else 0}
+
+
+FAMILIES = {"step": fam_step, "hist": fam_hist, "sub": fam_sub,
+            "scale": fam_scale}
 
 
 # --------------------------------------------------------------------------
@@ -776,7 +935,11 @@ def run(ctx):
         "first operation.  sub: 13 data-derived configurations x 4 "
         "data sets x construction mode x non_local.  A case is non-trivial "
         "when at least two different adjacency matrices were observed in it; "
-        "distinct = distinct (threshold, adjacency) outcome sequences." % (
+        "distinct = distinct (threshold, adjacency) outcome sequences.  scale: "
+        "fixed structured matrices (41 similarity levels with ties, signs, "
+        "largest entries on the last nodes; symmetric/undirected and "
+        "asymmetric/directed, diagonal 1 and 0) on a 130..300-node spiral grid with "
+        "local clusters, antipodes and a duplicate location." % (
             ALPHA4, ALPHA3, DIAGS, [round(r, 4) for r in DENSITIES], depth))
     # ---- self-test: the first case twice gives the same observation
     c0 = [3, True, 1, 1.0, "clustered", False, True]
@@ -836,7 +999,23 @@ def run(ctx):
                         cases.append([cls, ds, "dens", r, nl, w])
     ctx.explore("sub", cases, desc="data-derived subclasses, both "
                 "construction modes + setter chain")
+    # ---- scale
+    sizes = [130, 150, 209, 300] + ([129, 257, 183] if thorough else [])
+    cases = []
+    for N in sizes:
+        confs = [(True, False), (False, True)]
+        if thorough:
+            confs += [(True, True)]
+        for (sym, d) in confs:
+            for diag in (1.0, 0.0):
+                for nl in (False, True):
+                    cases.append([N, sym, diag, d, nl])
+    ctx.explore("scale", cases, chunk=1, desc="networks of 130-300 nodes "
+                "(row blocks of 128/256, flat index beyond int16): "
+                "construction by threshold and by density, 10-step setter "
+                "history, numpy oracle")
     ctx.notes.update({
+        "scale_sizes": sizes,
         "history_depth": depth, "history_matrices": len(hm),
         "step_matrices": len(mats),
         "operation_menu": "set_threshold(realised values, midpoints, -1, 2), "
